@@ -10,6 +10,12 @@
 (*     classifies the first disagreement with p1 (path + field),             *)
 (*   - evaluates the property's formulas on the LOGGED pair (p0, p1),        *)
 (*   - re-does the recorded merge histories on the logged trees.             *)
+(* Documents holding `!path` nodes were also parsed from a named file and     *)
+(* their dump re-read (a) as a string, (b) as a file elsewhere, (c) under     *)
+(* the same name: tr.pf logs, per way, the source file of every `!path` node  *)
+(* of the original (l0) and of the re-parse (l1), in pre-order.  TLC compares *)
+(* them with the source-file layer of AyDump (pfcmp) and evaluates SamePaths  *)
+(* / SfStable on the LOGGED files (lpv / lsf).                                *)
 (* The verdict is total: every trace gets exactly one row.                   *)
 (***************************************************************************)
 EXTENDS AyDump, Uni
@@ -49,6 +55,13 @@ InterL(t, u) == u = t \/ (IF t.k = "dict" /\ u.k = "dict" THEN DifferL(t, u) = {
 HistOf(c, x) == [q \in 1..Len(c.pre) |-> Parse(SDofJ(c.pre[q]), TRUE)] \o <<x>>
                 \o [q \in 1..Len(c.post) |-> Parse(SDofJ(c.post[q]), TRUE)]
 
+\* the logged source files of one way: same nodes, same reference directory / same file
+FnSf(l) == [x \in 1..Len(l) |-> [fn |-> l[x].fn, sf |-> l[x].sf]]
+LoggedSamePaths(e) == /\ Len(e.l1) = Len(e.l0)
+                      /\ \A x \in 1..Len(e.l0) : e.l1[x].fn = e.l0[x].fn /\ RefBase(e.l1[x].fn, e.l1[x].sf) = RefBase(e.l0[x].fn, e.l0[x].sf)
+LoggedSfStable(e)  == /\ Len(e.l1) = Len(e.l0)
+                      /\ \A x \in 1..Len(e.l0) : e.l1[x].sf = e.l0[x].sf
+
 Verdict(tr) ==
     LET p0     == NodeOfJ(tr.p0)
         realOk == tr.out = "ok"
@@ -65,12 +78,22 @@ Verdict(tr) ==
         \* recorded histories re-done on the logged trees
         cbad   == {q \in 1..Len(tr.ctx) :
                      realOk /\ SameIn(HistOf(tr.ctx[q], p0), HistOf(tr.ctx[q], p1)) # tr.ctx[q].same}
+        \* source files of the !path nodes: the layer of the specification against the logged one, way by way
+        fits   == mok /\ SfFits(um, SfDump(p0, OrgParse(p0, NoFile)))
+        pfbad  == {q \in 1..Len(tr.pf) :
+                     \/ FnSf(SfOrig(p0, tr.pf[q].f)) # FnSf(tr.pf[q].l0)
+                     \/ (fits /\ FnSf(SfAgain(p0, um, tr.pf[q].f, tr.pf[q].g)) # FnSf(tr.pf[q].l1))}
     IN [trace |-> tr.tid, cmp |-> cmp, where |-> where,
         lsv |-> realOk /\ SameValue(p0, p1), lmd |-> realOk /\ SameMd(p0, p1),
         lic |-> realOk /\ InterL(p0, p1),
         msv |-> SameValue(p0, um), mmd |-> SameMd(p0, um), mst |-> DumpStable(p0, um, AsIs),
         mic |-> mok /\ (IF cmp = "equal" /\ realOk THEN InterL(p0, p1) ELSE InterL(p0, um)),
-        fired |-> Fired(p0, AsIs), cbad |-> cbad]
+        fired |-> Fired(p0, AsIs), cbad |-> cbad,
+        pfcmp |-> IF Len(tr.pf) = 0 THEN "none" ELSE IF pfbad = {} THEN "equal" ELSE "differs", pfbad |-> pfbad,
+        lpv |-> \A q \in 1..Len(tr.pf) : LoggedSamePaths(tr.pf[q]),
+        lsf |-> \A q \in 1..Len(tr.pf) : LoggedSfStable(tr.pf[q]),
+        mpv |-> mok => \A q \in 1..Len(tr.pf) : SamePaths(p0, um, tr.pf[q].f, tr.pf[q].g),
+        msf |-> mok => \A q \in 1..Len(tr.pf) : SfStable(p0, um, tr.pf[q].f, tr.pf[q].g)]
 
 Report == tid > 0 => PrintT(ToJson(Verdict(Traces[tid])))
 
